@@ -28,11 +28,12 @@ const (
 	nLocMax   = maxBlocks * nOff
 )
 
-// Two blobs per block, back to back: [0,8) and [8,32). The same (offset,size)
-// pairs are used for every key, so equal locations under different keys occur.
+// Two blobs per block, back to back: [0,8) and the empty blob at 8 (a location of size zero is a legitimate
+// entry, not a free slot). The same (offset,size) pairs are used for every key, so equal locations under
+// different keys occur.
 var (
 	offBytes  = [nOff]int64{0, 8}
-	sizeBytes = [nOff]int64{8, 24}
+	sizeBytes = [nOff]int64{8, 0}
 )
 
 func mkLoc(locIdx int) local.Location {
@@ -130,9 +131,18 @@ func (v *volatileBlocks) live() int { return v.n }
 // ---------------------------------------------------------------- block device
 
 // memDevice is a fixed-size blockdevice.BlockDevice over a byte slice.
-type memDevice struct{ data []byte }
+type memDevice struct {
+	data      []byte
+	failReads int // the next failReads calls of ReadAt fail
+}
+
+var errInjectedRead = errors.New("injected transient read error")
 
 func (d *memDevice) ReadAt(p []byte, off int64) (int, error) {
+	if d.failReads > 0 {
+		d.failReads--
+		return 0, errInjectedRead
+	}
 	if off < 0 || off > int64(len(d.data)) {
 		return 0, io.EOF
 	}
@@ -397,6 +407,7 @@ func (c *config) name() string {
 
 type instance struct {
 	cfg *config
+	dev *memDevice
 	klm local.KeyLocationMap
 	arr local.LocationRecordArray
 	bl  blocks
@@ -418,15 +429,27 @@ func newInstance(cfg *config, h *labelHandles) *instance {
 		in.arr = local.NewInMemoryLocationRecordArray(cfg.Size, in.bl)
 	default:
 		dev := &memDevice{data: make([]byte, cfg.Size*local.BlockDeviceBackedLocationRecordSize)}
+		in.dev = dev
 		in.arr = local.NewBlockDeviceBackedLocationRecordArray(dev, in.bl)
 	}
 	in.klm = local.NewHashingKeyLocationMap(in.arr, cfg.Size, cfg.HashInit, cfg.G, cfg.P, h.label)
 	return in
 }
 
-// Operation numbering: put(k,loc) = k*nLoc+loc, then push, then release.
-func (c *config) nLoc() int      { return c.MaxLive * nOff }
-func (c *config) nOps() int      { return len(c.keys)*c.nLoc() + 2 }
+// Operation numbering: put(k,loc) = k*nLoc+loc, then push, then release; on the block-device backends then
+// putF(k,loc): the same Put with the device failing the first record read of that call.
+func (c *config) nLoc() int { return c.MaxLive * nOff }
+func (c *config) hasFaultOps() bool {
+	return c.Backend == "dev-harness" || c.Backend == "dev-volatile"
+}
+func (c *config) opFault0() int          { return len(c.keys)*c.nLoc() + 2 }
+func (c *config) isFaultPut(op int) bool { return op >= c.opFault0() }
+func (c *config) nOps() int {
+	if c.hasFaultOps() {
+		return 2*len(c.keys)*c.nLoc() + 2
+	}
+	return len(c.keys)*c.nLoc() + 2
+}
 func (c *config) opPush() int    { return len(c.keys) * c.nLoc() }
 func (c *config) opRelease() int { return len(c.keys)*c.nLoc() + 1 }
 
@@ -436,6 +459,9 @@ func (c *config) opName(op int) string {
 		return "push"
 	case op == c.opRelease():
 		return "release"
+	case c.isFaultPut(op):
+		o := op - c.opFault0()
+		return fmt.Sprintf("putF %s %s", c.Keys[o/c.nLoc()], locName(o%c.nLoc()))
 	default:
 		return fmt.Sprintf("put %s %s", c.Keys[op/c.nLoc()], locName(op%c.nLoc()))
 	}
@@ -457,6 +483,8 @@ func (c *config) enabled(op, live int) bool {
 		return live < c.MaxLive
 	case op == c.opRelease():
 		return live > 0
+	case c.isFaultPut(op):
+		return ((op-c.opFault0())%c.nLoc())/nOff < live
 	default:
 		return (op%c.nLoc())/nOff < live
 	}
@@ -472,6 +500,12 @@ func (in *instance) apply(op int) error {
 	case op == c.opRelease():
 		in.bl.release()
 		return nil
+	case c.isFaultPut(op):
+		o := op - c.opFault0()
+		in.dev.failReads = 1
+		err := in.klm.Put(c.keys[o/c.nLoc()], mkLoc(o%c.nLoc()))
+		in.dev.failReads = 0
+		return err
 	default:
 		return in.klm.Put(c.keys[op/c.nLoc()], mkLoc(op%c.nLoc()))
 	}
